@@ -224,6 +224,13 @@ def cases(rng, tier, stats):
     # paths without the extension that have no final file-name component either, and other degenerate texts: an error value
     for bad in ("", ".", "./", "..", "sub/..", "/", "sub/", "sub", ".pakhi", "sub/.pakhi", "x.pakhi/", " ", "b.pakhi ", "b.PAKHI"):
         specials.append(('দেখাও "আগে";\nমডিউল ম = "' + bad + '";\nদেখাও "x";\n', [("b.pakhi", 'দেখাও "b";'), ("sub/c.pakhi", 'দেখাও "c";')]))
+    # the same degenerate path texts written inside an imported module (in a sub-directory and next to the root), first / last statement
+    for bad in ("", ".", "./", "..", "sub/..", "lib/..", "/", "sub/", "sub", ".pakhi", "x.pakhi/", " ", "../"):
+        for where in ("b.pakhi", "sub/c.pakhi"):
+            for pos in (0, 1):
+                body = ['দেখাও "মডিউল";', 'মডিউল ভ = "' + bad + '";']
+                body = body if pos else body[::-1]
+                specials.append(('দেখাও "আগে";\nমডিউল ম = "' + where + '";\nদেখাও "x";\n', [(where, "\n".join(body) + "\n"), ("sub/d.pakhi", 'দেখাও "d";')]))
     for src, files in specials:
         lines = ["RESET"]
         ok_expected = files is None
